@@ -46,7 +46,8 @@ class _Resp(object):
     """what `urlopen` returns: the surface of http.client.HTTPResponse / urllib.response.addinfourl
     that client code may touch (context manager, status / code / getcode(), read(), headers …)"""
 
-    def __init__(self, header=None, status=200, url=None, body=b'{"ok":true}'):
+    def __init__(self, header=None, status=200, url=None, body=b'{"ok":true}', incomplete=False):
+        self._incomplete = incomplete
         import email.message
         self._header = header
         self.status = status
@@ -72,6 +73,9 @@ class _Resp(object):
         self.closed = True
 
     def read(self, amt=None):
+        if self._incomplete:
+            import http.client
+            raise http.client.IncompleteRead(self._body[:3], len(self._body) - 3)
         b, self._body = self._body, b''
         return b
 
@@ -104,7 +108,27 @@ def raise_for(kind, url, status=None):
         raise urllib.error.HTTPError(url, st, 'Client Error', {}, io.BytesIO(b''))
     if kind == 'type':
         raise TypeError('scripted TypeError')
+    # the request was received, no complete answer came back: what http.client lets through unwrapped
+    # (urllib wraps only errors of the *sending* half in URLError)
+    if kind == 'reset':
+        raise ConnectionResetError(104, 'Connection reset by peer')
+    if kind == 'timeout':
+        import socket
+        raise socket.timeout('timed out')
+    if kind == 'brokenpipe':
+        raise BrokenPipeError(32, 'Broken pipe')
+    if kind == 'disconnected':
+        import http.client
+        raise http.client.RemoteDisconnected('Remote end closed connection without response')
     raise lib.InfraError('unknown attempt kind %r' % kind)
+
+
+DROPPED = ('reset', 'timeout', 'brokenpipe', 'disconnected', 'incomplete')
+
+
+def model_kind(kind):
+    """the attempt class of the Lean model"""
+    return 'dropped' if kind in DROPPED else kind
 
 
 class World(object):
@@ -159,6 +183,9 @@ class World(object):
             # the server acknowledges: any 2xx is an acknowledgement
             rec['status'] = self.statuses.get('ok', 200)
             return _Resp(status=rec['status'], url=req.full_url)
+        if kind == 'incomplete':
+            # status line and headers arrive, the body does not
+            return _Resp(status=200, url=req.full_url, incomplete=True)
         raise_for(kind, req.full_url, self.statuses.get(kind))
 
     def fire_hook(self):
@@ -229,6 +256,22 @@ class _Handler(BaseHTTPRequestHandler):
             w.points.append(w.point)
         w.fire_hook()
         w.point['attempts'].append(rec)
+        if kind in ('disconnected', 'reset', 'incomplete'):
+            import socket as _socket
+            import struct
+            if kind == 'incomplete':
+                self.wfile.write(b'HTTP/1.0 200 OK\r\nContent-Length: 50\r\n\r\n{"ok"')
+                self.wfile.flush()
+            elif kind == 'reset':
+                # close with RST instead of FIN: the client sees ECONNRESET while it waits for the response
+                self.connection.setsockopt(_socket.SOL_SOCKET, _socket.SO_LINGER, struct.pack('ii', 1, 0))
+            self.close_connection = True
+            try:
+                self.connection.shutdown(_socket.SHUT_RDWR) if kind != 'reset' else None
+            except OSError:
+                pass
+            self.connection.close()
+            return
         status = {'ok': self.server.statuses.get('ok', 200), '5xx': self.server.statuses.get('5xx', 503),
                   '4xx': self.server.statuses.get('4xx', 400)}[kind]
         self.send_response(status)
